@@ -167,12 +167,16 @@ def gen_src():
         rc, out, err = sh2([sys.executable, gen, tmp_lean, c_file], timeout=120)
         if rc != 0:
             return False, "gen_src.py pass 1 failed: " + out + err, {}
-        ok, log = cc("gen_src_consts", [c_file], ["-w"])
-        if not ok:
-            return False, "constants / zero-offset assertions of gen_src do not compile against /repo:\n" + log, {}
-        rc, out, err2 = sh2([os.path.join(BUILD, "gen_src_consts")], timeout=60)
-        if rc != 0:
-            return False, "gen_src_consts failed", {}
+        out = ""
+        for cf in sorted(x for x in os.listdir(BUILD) if x.startswith("gen_src_consts") and x.endswith(".c")):
+            exe = cf[:-2].replace(".", "_")
+            ok, log = cc(exe, [os.path.join(BUILD, cf)], ["-w"])
+            if not ok:
+                return False, "constants / zero-offset assertions of gen_src (%s) do not compile against /repo:\n" % cf + log, {}
+            rc, o1, err2 = sh2([os.path.join(BUILD, exe)], timeout=60)
+            if rc != 0:
+                return False, "gen_src_consts (%s) failed" % cf, {}
+            out += o1
         with open(txt, "w") as f:
             f.write(out)
         rc, out, err = sh2([sys.executable, gen, tmp_lean, c_file, txt], timeout=120)
